@@ -7,6 +7,7 @@ from .. import astutil as A
 from ..cfg import cfg_of, within
 from ..dataflow import derives, local_defs, reaching
 from ..engine_model import RunFor
+from .roles import contributions
 
 EXPL = (
     "The engine's bookkeeping is a faithful fold of what the store reports: "
@@ -435,9 +436,7 @@ def r10_3(ck):
     for lst, field in (('process_updates', 'processes'),
                        ('step_updates', 'steps'), ('flow_updates', 'flow'),
                        ('topology_updates', 'topology')):
-        ext = [c for c in A.calls_in(ins.node, ('extend', 'append'))
-               if A.unparse(A.call_receiver(c)) == reporter_names(
-                   ins.node)[lst]]
+        ext = contributions(ins.node, reporter_names(ins.node)[lst])
 
         def from_field(x, field=field):
             if isinstance(x, ast.Subscript) and A.is_name(x.value, param) \
@@ -449,8 +448,8 @@ def r10_3(ck):
                     x.args[0].value == field:
                 return True
             return False
-        ok = bool(ext) and any(derives(ins.node, c.args[0], from_field,
-                                       at=c) for c in ext if c.args)
+        ok = bool(ext) and any(derives(ins.node, e, from_field, at=c)
+                               for e, c, _k in ext)
         ck.require(ok, 'R10.3', ins, "report of insertion['%s']" % field,
                    "the inserted %s are reported to the engine" % field,
                    "Store.insert no longer reports the inserted %s: %s" % (
